@@ -35,6 +35,7 @@ type Eng struct {
 	lemmas    []*Lemma
 	globals_  []GlobalInv
 	mapvals   map[string]MapVal
+	immutables map[string]bool // pkgpath.Name of package variables declared immutable
 	globals   map[*ssa.Global]int64
 	funcs     map[*ssa.Function]int64
 	strings   map[string]int64
@@ -117,6 +118,12 @@ func (e *Eng) Load(patterns []string) error {
 				}
 				e.lemmas = append(e.lemmas, cf.Lemmas...)
 				e.globals_ = append(e.globals_, cf.Globals...)
+				for _, im := range cf.Immutables {
+					if e.immutables == nil {
+						e.immutables = map[string]bool{}
+					}
+					e.immutables[p.PkgPath+"."+im] = true
+				}
 				for _, mv := range cf.MapVals {
 					if e.mapvals == nil {
 						e.mapvals = map[string]MapVal{}
@@ -775,6 +782,7 @@ func (tr *FnTr) exceptionalExit(fc *FuncContract, fn *ssa.Function) {
 		vc.Assume(Lt(o, st.Alloc))
 	}
 	tr.st = st
+	tr.assumeGlobals()
 	tr.rets = nil
 	tr.runDefers(true)
 	tr.in[fn.Recover] = []*Edge{{To: fn.Recover, St: tr.st}}
